@@ -1,4 +1,5 @@
 """FIX Protocol Unit Tester."""
+from decimal import Decimal
 from math import isnan, nan
 from unittest.mock import AsyncMock, MagicMock
 
@@ -293,6 +294,14 @@ class FIXTester:
 
         return m
 
+    @staticmethod
+    def _fix_float(value: float) -> float | str:
+        """FIX float fields have no exponent form (9.9e-05 -> 0.000099)."""
+        s = str(value)
+        if "e" in s or "E" in s:
+            return format(Decimal(s), "f")
+        return value
+
     def fix_exec_report_msg(
         self,
         order: FIXNewOrderSingle,
@@ -365,7 +374,7 @@ class FIXTester:
         else:
             assert cum_qty <= order.qty
             assert cum_qty >= 0
-        m[FTag.CumQty] = cum_qty
+        m[FTag.CumQty] = self._fix_float(cum_qty)
 
         if isnan(leaves_qty):
             leaves_qty = order.leaves_qty
@@ -373,7 +382,7 @@ class FIXTester:
             assert leaves_qty >= 0
             assert leaves_qty <= order_qty
 
-        m[FTag.LeavesQty] = leaves_qty
+        m[FTag.LeavesQty] = self._fix_float(leaves_qty)
         assert (
             cum_qty + leaves_qty <= order_qty
         ), f"cum_qty[{cum_qty}] + leaves_qty[{leaves_qty}] <= order_qty[{order_qty}]"
@@ -385,7 +394,7 @@ class FIXTester:
                 exec_type == FExecType.TRADE
             ), "Only applicable to exec_type=F (trade)"
             assert last_qty > 0
-            m[FTag.LastQty] = last_qty
+            m[FTag.LastQty] = self._fix_float(last_qty)
             assert (
                 round(last_qty - (cum_qty - order.cum_qty), 3) == 0
             ), "Probably incorrect Trade qty"
@@ -404,7 +413,7 @@ class FIXTester:
         order.set_instrument(m)
 
         order.set_price_qty(m, price, order_qty)
-        m[FTag.AvgPx] = avg_price
+        m[FTag.AvgPx] = self._fix_float(avg_price)
 
         order.set_account(m)
 
